@@ -1,4 +1,5 @@
 import SSV.Proofs.SWFRun
+import SSV.Proofs.UdpSession
 /-
 C04 — Authenticated UDP packets are delivered at most once; fresh ones never refused.
 Property theorems only (helper lemmas: SSV/Proofs/SWF*.lean, SSV/Proofs/UdpSession.lean).
@@ -96,6 +97,95 @@ theorem add_behind_refused (f : Filter) (c : Nat) (h1 : ¬ c > f.last) (h2 : f.l
 
 example : ∃ (f : Filter) (c : Nat), ¬ c > f.last ∧ f.last - c ≥ f.size := ⟨(add (new 2) 9).1, 3, by decide⟩
 
+/-! ## Part 2: the UDP unpackers (ss2022/packet.go, model SSV/Model/UdpSession.lean) -/
+
+open SSV.UdpSession
+
+/-- Gen side conditions: the order of the property-relevant statements in the two `UnpackInPlace`
+functions as the source has it now: length guard, [session classification,] `IsOk` guard, AEAD open,
+header parse/validation (each followed by `if err != nil { return }`), lazy filter creation, `MustAdd`,
+and only then writes to the receiver's state. This is what justifies the shape of the model
+(`serverVerdict`/`serverCommit`, `clientVerdict`/`clientCommit`): no state is written before the last
+early return. -/
+theorem gen_serverUnpackOrder : SSV.Gen.C04.serverUnpackOrder =
+    ["guard", "isok-guard", "open", "ret-if-err", "parse", "ret-if-err", "create[p.filter == nil]", "mustadd", "return"] := by
+  rfl
+
+theorem gen_clientUnpackOrder : SSV.Gen.C04.clientUnpackOrder =
+    ["guard",
+     "switch[ssid == p.currentServerSessionID && p.currentServerSessionAEAD != nil; ssid == p.oldServerSessionID && p.oldServerSessionAEAD != nil; time.Since(p.oldServerSessionLastSeenTime) < time.Minute:may-return; default:may-return]",
+     "isok-guard", "open", "ret-if-err", "parse", "ret-if-err", "create[sessionStatus == newServerSession]", "mustadd",
+     "switch[oldServerSession:write:oldServerSessionLastSeenTime; newServerSession:write:oldServerSessionID+oldServerSessionAEAD+oldServerSessionFilter+oldServerSessionLastSeenTime+currentServerSessionID+currentServerSessionAEAD+currentServerSessionFilter]",
+     "return"] := by
+  rfl
+
+/-- Gen side condition: the constants of the header checks and of the one-minute rule. -/
+theorem gen_udp_constants :
+    SSV.Gen.C04.HeaderTypeClientPacket = 0 ∧ SSV.Gen.C04.HeaderTypeServerPacket = 1 ∧
+    SSV.Gen.C04.MaxEpochDiff = 30 ∧ SSV.Gen.C04.clientSessionChangeMinInterval = 60 * 1000000000 := by
+  decide
+
+/-- **rejected_is_noop.** A packet that is not delivered — too short, replayed, forged (AEAD does not
+open), wrong type, stale timestamp, another client's session id, malformed rest, or (client) a server
+session change refused by the one-minute rule — leaves the unpacker state exactly as it was:
+the filter(s), their existence, the session bookkeeping. So it cannot change which later packets are
+accepted. Server and client unpacker. -/
+theorem rejected_is_noop :
+    (∀ (st : ServerState) (now : Nat) (p : Packet), (serverStep st now p).2 ≠ .ok → (serverStep st now p).1 = st) ∧
+    (∀ (st : ClientState) (now : Nat) (p : Packet), (clientStep st now p).2 ≠ .ok → (clientStep st now p).1 = st) :=
+  ⟨serverStep_noop, clientStep_noop⟩
+
+example : ∃ (st : ServerState) (now : Nat) (p : Packet), (serverStep st now p).2 ≠ .ok :=
+  ⟨serverInit 4, 0, { long := true, sid := 0, pid := 0, authentic := false, hdr := true, typ := 0, ts := 0, csid := 0, rest := true }, by decide⟩
+
+/-- **junk_never_delivered.** Forged, wrong-type, stale-timestamp packets (and, on the client, packets that
+name another client session) are never delivered, in any state. -/
+theorem junk_never_delivered :
+    (∀ (st : ServerState) (now : Nat) (p : Packet), serverJunk now p = true → (serverStep st now p).2 ≠ .ok) ∧
+    (∀ (st : ClientState) (now : Nat) (p : Packet), clientJunk st.csid now p = true → (clientStep st now p).2 ≠ .ok) :=
+  ⟨fun _ _ _ h => serverJunk_rejected h, fun _ _ _ h => clientJunk_rejected h⟩
+
+example : serverJunk 0 { long := true, sid := 0, pid := 0, authentic := true, hdr := true, typ := 0, ts := 31, csid := 0, rest := true } = true := by
+  decide
+
+/-- **junk_interleaving.** Interleaving any amount of such junk into a history changes no verdict on the
+other packets: the verdicts of the non-junk packets of a history equal the verdicts of the history
+with the junk removed (every state, every history; server and client). -/
+theorem junk_interleaving :
+    (∀ (st : ServerState) (evs : List Event),
+      ((evs.zip (serverRun st evs)).filter (fun e => !serverJunk e.1.1 e.1.2)).map (·.2) =
+        serverRun st (evs.filter (fun e => !serverJunk e.1 e.2))) ∧
+    (∀ (st : ClientState) (evs : List Event),
+      ((evs.zip (clientRun st evs)).filter (fun e => !clientJunk st.csid e.1.1 e.1.2)).map (·.2) =
+        clientRun st (evs.filter (fun e => !clientJunk st.csid e.1 e.2))) :=
+  ⟨server_junk_filter, client_junk_filter⟩
+
+/-- **server_unpack_refines.** For every filter size in range, after every history `pre` (any mix of
+genuine, replayed, reordered, forged, stale, malformed packets at any times) the server unpacker
+delivers a packet iff it is long enough, authentic, its header validates now, and its packet id is
+fresh w.r.t. the ids delivered so far (not delivered; newer than, or fewer than `size` behind, the
+newest delivered; or nothing delivered yet). -/
+theorem server_unpack_refines (n : Nat) (h : SizeOk n) (pre : List Event) (now : Nat) (p : Packet) :
+    (serverStep (serverAfter (serverInit n) pre) now p).2 = .ok ↔
+      (p.long = true ∧ p.authentic = true ∧ parseClientHeader now p = none ∧
+        Fresh n (serverDelivered (serverInit n) [] pre) p.pid) := by
+  have h0 : SInv (serverInit n) [] := rfl
+  obtain ⟨hinv, hsz⟩ := serverRun_inv (st := serverInit n) h.1 h.2 h0 pre
+  have hsz' : (serverAfter (serverInit n) pre).filterSize = n := hsz
+  have := (serverStep_spec (by rw [hsz']; exact h.1) (by rw [hsz']; exact h.2) hinv now p).1
+  rw [hsz'] at this
+  exact this
+
+/-- **server_at_most_once.** The server unpacker never delivers the same packet id twice in a session. -/
+theorem server_at_most_once (n : Nat) (h : SizeOk n) (evs : List Event) :
+    (serverDelivered (serverInit n) [] evs).Nodup :=
+  serverDelivered_nodup (st := serverInit n) h.1 h.2 rfl List.nodup_nil evs
+
+example : serverRun (serverInit 4)
+    [(0, { long := true, sid := 0, pid := 7, authentic := true, hdr := true, typ := 0, ts := 0, csid := 0, rest := true }),
+     (0, { long := true, sid := 0, pid := 7, authentic := true, hdr := true, typ := 0, ts := 0, csid := 0, rest := true })]
+    = [.ok, .replay] := by decide
+
 end SSV.C04
 
 #print axioms SSV.C04.gen_swfBlockBits
@@ -105,3 +195,11 @@ end SSV.C04
 #print axioms SSV.C04.refused_only_if_not_fresh
 #print axioms SSV.C04.ring_access_in_range
 #print axioms SSV.C04.add_behind_refused
+#print axioms SSV.C04.gen_serverUnpackOrder
+#print axioms SSV.C04.gen_clientUnpackOrder
+#print axioms SSV.C04.gen_udp_constants
+#print axioms SSV.C04.rejected_is_noop
+#print axioms SSV.C04.junk_never_delivered
+#print axioms SSV.C04.junk_interleaving
+#print axioms SSV.C04.server_unpack_refines
+#print axioms SSV.C04.server_at_most_once
